@@ -15,4 +15,29 @@ MODULES = {
                      ('start', 'Z'), ('end', 'Z')],
              ret=['Z', 'Z']),
     ]),
+    # get_regions: ONE ITERATION of `for line in infile:` -- header / blank / all-N / N-free lines are translated; the
+    # mixed line's array code (np.where, np.diff, the inner loop over the short blocks) is an OPAQUE range whose declared
+    # effect -- the regions it yields and the run_start it leaves -- enters as two parameters (Model/Access.v computes them
+    # from the characters).  String tests on the line are opaque booleans / numbers keyed by their source text.
+    # (Proofs/FnAccessScan.v: C13_source_scan_step / C13_source_scan_lines)
+    'FnAccessScan': ('cnvlib/access.py', [
+        dict(name='log_this', coq='fn_log_this',
+             params=[('chrom', 'S'), ('run_start', 'Z'), ('run_end', 'Z')], ret=['S', 'Z', 'Z']),
+        dict(name='get_regions', coq='fn_scan_step', py_params=['fasta_fname'],
+             loop=dict(first='for line in infile'),
+             carried=[('chrom', 'S'), ('cursor', 'Z'), ('run_start', 'OZ')],
+             yields=['S', 'Z', 'Z'],
+             opaque=[dict(first='line_chars = np.array(', last='if n_indices[-1] + 1 < len(line_chars)',
+                          assigns=[('run_start', 'mixed_run_start')], yields='mixed_yields')],
+             params=[('chrom', 'S'), ('cursor', 'Z'), ('run_start', 'OZ'),
+                     ("line.startswith('>')", 'B', 'is_header'),
+                     ('line.split(None, 1)[0][1:]', 'S', 'header_name'),
+                     ('line.rstrip()', 'S', 'stripped'),
+                     ('not line', 'B', 'is_blank'),
+                     ("'N' in line", 'B', 'has_n'),
+                     ("all((c == 'N' for c in line))", 'B', 'all_n'),
+                     ('len(line)', 'Z', 'line_len'),
+                     ('mixed_yields', 'Y'), ('mixed_run_start', 'OZ')],
+             ret=['S', 'Z', 'OZ']),
+    ]),
 }
